@@ -234,6 +234,23 @@ def mapMathList (f : String → String) : List MathML → List MathML
   | m :: ms => mapMath f m :: mapMathList f ms
 end
 
+mutual
+def mathNames : MathML → List String
+  | .ci n => [n]
+  | .apply _ cs => mathNamesList cs
+  | _ => []
+def mathNamesList : List MathML → List String
+  | [] => []
+  | m :: ms => mathNames m ++ mathNamesList ms
+end
+
+/-- identifiers used in some math of the document that nothing in the document defines
+    (the imported model then has unresolvable arguments) -/
+def SDoc.undefinedNames (d : SDoc) : List String :=
+  let defined := d.params.map (·.1) ++ d.species.map (·.1) ++ d.rules.map (·.1) ++ d.rxns.map (·.id) ++ ["time"]
+  let used := (d.inits.map (·.2) ++ d.rules.map (·.2) ++ d.rxns.map (·.law)).flatMap mathNames
+  used.filter (fun n => !defined.contains n)
+
 /-- pysbml renames the species of a reference and the variable of the rule that defines its value,
     but keeps the reference's own id as written (observed; part of finding F-C08-5) -/
 def SRef.mapNames (f : String → String) (s : SRef) : SRef :=
